@@ -161,6 +161,10 @@ func decodePacked6BitAscii(b []byte, c int) (string, int, error) {
 }
 
 func decode8BitAsciiLatin1(b []byte, c int) (string, int, error) {
+	if c == 0 {
+		// a length of 0 means no data is present, which is valid
+		return "", 0, nil
+	}
 	if len(b) < 2 {
 		// it is unclear why this limitation exists, but it's plain to
 		// see in the specification
